@@ -1,7 +1,7 @@
 //! Functions for limiting execution time.
 //!
-//! This module contains a global variable, SUIRON_STOP_QUERY,
-//! and therefore has 'unsafe' code.
+//! This module contains the global stop-query flag, SUIRON_STOP_QUERY
+//! (kept in the atomic QUERY_STATE).
 
 use std::time::Duration;
 use std::sync::atomic::{AtomicU64, Ordering};
@@ -9,12 +9,35 @@ use thread_timer::ThreadTimer;
 
 use super::logic_var::*;
 
-static mut SUIRON_STOP_QUERY: bool = false;
+// The stop-query flag. One atomic word holds the number of the current query
+// (upper bits) and its status (lowest two bits), so that a timer can stop
+// exactly the query it was started for, and only while that query is still
+// running, in ONE step. With a separate flag, a timer which had already
+// decided to stop its query could be overtaken by cancel_timer() and by the
+// start of the next query, and would then stop that one: ThreadTimer::cancel()
+// can fail when it races with the timer thread.
+static QUERY_STATE: AtomicU64 = AtomicU64::new(RUNNING);
 
-// Number of the current query timer. A timer may only stop the query it was
-// started for: ThreadTimer::cancel() can fail when it races with the timer
-// thread, and the timer then fires after the query has finished.
-static TIMER_GENERATION: AtomicU64 = AtomicU64::new(0);
+const STATUS: u64    = 3;  // mask
+const RUNNING: u64   = 0;
+const STOPPED: u64   = 1;  // SUIRON_STOP_QUERY is true
+const CANCELLED: u64 = 2;  // timer cancelled: a late time-out is ignored
+
+// Starts a new query: next query number, status running. Returns the new state.
+fn new_query_state() -> u64 {
+    let next = |s: u64| { ((s >> 2) + 1) << 2 };
+    let previous = QUERY_STATE.fetch_update(Ordering::SeqCst, Ordering::SeqCst,
+                                            |s| { Some(next(s)) }).unwrap();
+    return next(previous);
+}
+
+// Called when a query timer times out. `state` is the state which the
+// timer's query had when it was started. Stops that query, unless it has
+// been stopped, cancelled or superseded in the meantime.
+fn timer_timed_out(state: u64) {
+    let _ = QUERY_STATE.compare_exchange(state, state | STOPPED,
+                                         Ordering::SeqCst, Ordering::SeqCst);
+}
 
 /// Create a timer with a timeout in milliseconds.
 ///
@@ -32,16 +55,10 @@ static TIMER_GENERATION: AtomicU64 = AtomicU64::new(0);
 /// let timer = start_query_timer(300);
 /// ```
 pub fn start_query_timer(milliseconds: u64) -> ThreadTimer {
-    unsafe { SUIRON_STOP_QUERY = false; }
-    let generation = TIMER_GENERATION.fetch_add(1, Ordering::SeqCst) + 1;
+    let state = new_query_state();  // SUIRON_STOP_QUERY = false
     let timer = ThreadTimer::new();
     timer.start(Duration::from_millis(milliseconds),
-                move || {
-                    // Ignore a timer which was cancelled or superseded.
-                    if TIMER_GENERATION.load(Ordering::SeqCst) == generation {
-                        stop_query();
-                    }
-                }).unwrap();
+                move || { timer_timed_out(state); }).unwrap();
     return timer;
 } // start_query_timer()
 
@@ -58,7 +75,9 @@ pub fn start_query_timer(milliseconds: u64) -> ThreadTimer {
 /// ```
 pub fn cancel_timer(timer: ThreadTimer) {
     // From now on the timer must not stop a query, even if cancel() fails.
-    TIMER_GENERATION.fetch_add(1, Ordering::SeqCst);
+    let _ = QUERY_STATE.fetch_update(Ordering::SeqCst, Ordering::SeqCst, |s| {
+        if s & STATUS == RUNNING { Some(s | CANCELLED) } else { None }
+    });
     match timer.cancel() {
         Ok(_) => {},
         Err(_) => {},
@@ -73,7 +92,7 @@ pub fn cancel_timer(timer: ThreadTimer) {
 /// In order to keep the substitution set small, the LOGIC_VAR_ID is
 /// reset to 0 at the start of every query.
 pub fn start_query() {
-    unsafe { SUIRON_STOP_QUERY = false; }
+    new_query_state();
     clear_id();
 }
 
@@ -82,7 +101,9 @@ pub fn start_query() {
 /// The SUIRON_STOP_QUERY is checked in count_rules(), in knowledgebase.rs.
 /// Setting it `true` effectively stops the search for a solution.
 pub fn stop_query() {
-    unsafe { SUIRON_STOP_QUERY = true; }
+    let _ = QUERY_STATE.fetch_update(Ordering::SeqCst, Ordering::SeqCst, |s| {
+        Some((s & !STATUS) | STOPPED)
+    });
 }
 
 /// Returns value of SUIRON_STOP_QUERY.
@@ -98,7 +119,7 @@ pub fn query_stopped() -> bool {
             else { VERIF_STOP_AFTER_READS = Some(n - 1); }
         }
     }
-    unsafe { SUIRON_STOP_QUERY }
+    QUERY_STATE.load(Ordering::SeqCst) & STATUS == STOPPED
 }
 
 /// Verification hook (only with `--cfg suiron_verif`): makes the stop-query flag
